@@ -236,8 +236,13 @@ impl<'a, D: DependencyProvider> Encoder<'a, D> {
             })
         {
             // If the dependencies are already available for the
-            // candidate, queue the candidate for processing.
-            if self.cache.are_dependencies_available_for(candidate) {
+            // candidate, queue the candidate for processing. Candidates that
+            // have already been assigned false are skipped: no clause may be
+            // created for a parent that is assigned false, and should the
+            // candidate be selected later it is encoded at that point.
+            if self.cache.are_dependencies_available_for(candidate)
+                && self.state.decision_tracker.assigned_value(candidate_var) != Some(false)
+            {
                 self.queue_solvable(candidate.into())
             }
 
